@@ -304,7 +304,7 @@ func families() []family {
 }
 
 func cmdCost(args []string) {
-	sizes := []int{500, 1000, 2000}
+	sizes := []int{1000, 2000, 4000}
 	if args[0] == "thorough" {
 		sizes = []int{1000, 2000, 4000, 8000}
 	}
